@@ -248,6 +248,9 @@ def _gsel(kind):
         return lambda sdf, w: ["k"]
     if kind == "wser":
         return lambda sdf, w: w.k
+    if kind == "ndarr":
+        # the grouper is a stream of plain numpy arrays (np.where(...) buckets, codes): one array of keys per batch
+        return lambda sdf, w: sdf.k.map_partitions(lambda s: s.values, sdf.k)
     return lambda sdf, w: sdf.k
 
 
@@ -301,7 +304,7 @@ API_NAMES = (
     ["sum", "count", "size", "mean", "var0", "var1", "std0", "std1", "vc",
      "df.sum", "df.count", "df.mean", "df.size", "df.var1"]
     + [b + "@" + g for b in ["gsum", "gcount", "gsize", "gmean", "gvar0", "gvar1", "gstd1"]
-       for g in ["col", "list", "wser", "sser"]]
+       for g in ["col", "list", "wser", "sser", "ndarr"]]
     + ["gsum@frame", "gmean@frame", "gcount@frame"]
 )
 
